@@ -911,7 +911,9 @@ class XsdElement(XsdComponent, ParticleMixin,
             except (XMLSchemaValueError, XMLSchemaTypeError) as err:
                 context.validation_error(validation, self, err, obj)
             else:
-                if any(x is not None for x in fields) or nilled:
+                if isinstance(identity, XsdKeyref) and any(x is None for x in fields):
+                    continue  # not in the qualified node set of the keyref
+                elif any(x is not None for x in fields) or nilled:
                     try:
                         counter.increase(fields)
                     except ValueError as err:
